@@ -95,6 +95,7 @@ type vfSession struct {
 	destRoot    string
 	srcPaths    []string
 	tunnelConns *vfConnLog
+	stdoutMark int
 	tunOut      *vfWire // shadow tap: what the client wrote into its tunnel connection
 	tunIn       *vfWire // shadow tap: what the client read from its tunnel connection
 
@@ -197,6 +198,7 @@ func vfNewSession(c *vfCtx, cfg vfCfg) *vfSession {
 	}
 	s.clientIn = vfNewWire("clientIn")
 	s.clientOut = vfNewSink()
+	s.stdoutMark = vfStdoutMark()
 	s.tunOut = vfNewWire("tunOut")
 	s.tunIn = vfNewWire("tunIn")
 	if cfg.Tunnel {
@@ -540,11 +542,11 @@ func (s *vfSession) ServerOutcome() vfOutcome {
 		key := " to " + s.destRoot + "\r\n"
 		deadline := time.Now().Add(2 * time.Second)
 		for {
-			if msg, ok := vfStdoutFind(key); ok {
+			if msg, ok := vfStdoutFind(key, s.stdoutMark); ok {
 				_, _, names, _ := vfParseSaved(msg)
 				return vfOutcome{Kind: "success", Text: msg, Names: names}
 			}
-			if msg, ok := vfStdoutFind(" to " + s.destRoot); ok && !strings.Contains(msg, "\r\n- ") {
+			if msg, ok := vfStdoutFind(" to "+s.destRoot, s.stdoutMark); ok && !strings.Contains(msg, "\r\n- ") {
 				return vfOutcome{Kind: "success", Text: msg}
 			}
 			if time.Now().After(deadline) {
